@@ -161,12 +161,18 @@ func vfC02WindowBytes() (int, bool) {
 // test goes on: the oracle still evaluates the property on the tree under test).
 func vfC02Consts(t *testing.T) bool {
 	w, ok := vfC02WindowBytes()
+	var wordBytes []int // the table of bits.go characterClass (the word characters of wordMatchTree), by running it on every byte value
+	for b := 0; b < 256; b++ {
+		if characterClass(byte(b)) {
+			wordBytes = append(wordBytes, b)
+		}
+	}
 	if !ok {
-		vfInfo(map[string]any{"consts_missing": true, "rune_offset_frequency": runeOffsetFrequency})
+		vfInfo(map[string]any{"consts_missing": true, "rune_offset_frequency": runeOffsetFrequency, "word_bytes": wordBytes})
 		return false
 	}
 	vfInfo(map[string]any{"consts": true, "rune_offset_frequency": runeOffsetFrequency, "find_offset_window_factor": w / runeOffsetFrequency,
-		"find_offset_window_bytes": w})
+		"find_offset_window_bytes": w, "word_bytes": wordBytes})
 	return true
 }
 
